@@ -82,6 +82,7 @@ type ledgerOp struct {
 	Times  int    `json:"times,omitempty"`  // repetition
 	At     int    `json:"at,omitempty"`     // truncate: start racing balance queries at this inspection of the context
 	Cancel int    `json:"cancel,omitempty"` // truncate: the context is cancelled at this inspection (shutdown in the middle of a truncation)
+	Old    bool   `json:"old,omitempty"`    // craft: the vertex was sealed five minutes ago
 }
 
 type behaviour struct {
@@ -264,12 +265,14 @@ func (w *world) name(addr string) string {
 	return "unknown:" + addr
 }
 
-func vertexDigest(v *accountant.Vertex) [32]byte {
+func vertexData(v *accountant.Vertex) []byte {
 	blockData := make([]byte, 0, 16)
 	blockData = binary.LittleEndian.AppendUint64(blockData, uint64(v.CreatedAt.UnixNano()))
 	blockData = binary.LittleEndian.AppendUint64(blockData, v.Weight)
-	return sha256.Sum256(bytes.Join([][]byte{v.Transaction.Hash[:], v.LeftParentHash[:], v.RightParentHash[:], blockData}, nil))
+	return bytes.Join([][]byte{v.Transaction.Hash[:], v.LeftParentHash[:], v.RightParentHash[:], blockData}, nil)
 }
+
+func vertexDigest(v *accountant.Vertex) [32]byte { return sha256.Sum256(vertexData(v)) }
 
 // selfAuthentic recomputes hash and signatures of a vertex independently of the repository's verifier.
 func (w *world) selfAuthentic(v *accountant.Vertex) bool {
@@ -754,6 +757,11 @@ func (w *world) opCraft(op ledgerOp) {
 	v, err := accountant.NewVertex(*t, lh, rh, op.W, s)
 	if err != nil {
 		return
+	}
+	if op.Old {
+		// sealed five minutes ago and only now on its way (a peer that was cut off): re-dated and re-sealed by its sealer
+		v.CreatedAt = time.Now().Add(-5 * time.Minute)
+		v.Hash, v.Signature = s.Sign(vertexData(&v))
 	}
 	switch op.Bad {
 	case "sig":
